@@ -107,6 +107,8 @@ class C20(Prop):
             for e in range(4):
                 yield {"k": "scale", "ops": ops, "e": e, "obj": rng.choice(("list", "pauli"))}
             yield {"k": "scale", "ops": ops, "e": 2, "obj": "neg"}
+            for e in range(4):
+                yield {"k": "scale", "ops": ops, "e": e, "obj": rng.choice(("list", "pauli")), "ctype": ("npscalar", "np0d", "tensor", "tensor64")[(t + e) % 4]}
 
     def execute(self, scn, be):
         k = scn["k"]
@@ -238,6 +240,37 @@ class C20(Prop):
                 ops, e = scn["ops"], scn["e"]
                 rec["ops"], rec["e"], rec["obj"] = ops, e, scn["obj"]
                 c = (1, 1j, -1, -1j)[e]
+                if scn.get("ctype"):
+                    # the same unit held in a numpy scalar, a 0-d numpy array or a 0-d tensor (a refusal is accepted)
+                    rec["ctype"] = scn["ctype"]
+                    ct = scn["ctype"]
+                    if ct.startswith("tensor") and be.name != "torch":
+                        ct = "npscalar"
+                    if ct == "npscalar":
+                        c = numpy.complex128(c) if e % 2 else numpy.float64(c.real if isinstance(c, complex) else c)
+                    elif ct == "np0d":
+                        c = numpy.array(c)
+                    elif ct == "tensor":
+                        c = be.torch.tensor(c if e % 2 else float(c.real if isinstance(c, complex) else c))
+                    else:
+                        c = be.torch.tensor(c, dtype=be.torch.complex128)
+                    try:
+                        if scn["obj"] == "list":
+                            r_ = c * be.plist(ops)
+                            if not hasattr(r_, "gs") or hasattr(r_, "cs"):
+                                return []
+                            rec["ret"] = be.p_list(r_)
+                        else:
+                            outs_ = []
+                            for w in ops:
+                                r_ = c * be.pauli(w)
+                                if not hasattr(r_, "g") or hasattr(r_, "c"):
+                                    return []          # (promoted to a weighted operator: judged under C15)
+                                outs_.append(be.p_pauli(r_))
+                            rec["ret"] = outs_
+                    except (NotImplementedError, TypeError):
+                        return []
+                    return [rec]
                 if scn["obj"] == "list":
                     rec["ret"] = be.p_list(c * be.plist(ops))
                 elif scn["obj"] == "neg":
